@@ -315,9 +315,10 @@ class LineTracer:
     """Counts 'line' events in frames of /repo/numpoly (never option.py) and
     raises SimInterrupt at event k.  k=None: count only (dry run)."""
 
-    def __init__(self, numpoly_dir: str, k: Optional[int] = None, budget: int = 2_000_000):
+    def __init__(self, numpoly_dir: str, k: Optional[int] = None, budget: int = 2_000_000, action: Optional[Callable[[], None]] = None):
         self.dir = numpoly_dir
         self.k = k
+        self.action = action  # instead of interrupting: what "the other party" does at that instant (e.g. another thread's call)
         self.budget = budget
         self.count = 0
         self.fired: Optional[str] = None
@@ -335,6 +336,9 @@ class LineTracer:
             self.count += 1
             if self.k is not None and self.count == self.k:
                 self.fired = f"{frame.f_code.co_filename[len(self.dir):]}:{frame.f_lineno}"
+                if self.action is not None:
+                    self.action()
+                    return self._local
                 raise core.SimInterrupt(self.fired)
             if self.count > self.budget:
                 self.over_budget = True
